@@ -766,6 +766,10 @@ func genValue(r *rand.Rand, adversarial bool) string {
 			return fmt.Sprintf("%d/%d", 1+r.Intn(5), []int{3, 5, 6, 7, 9, 11, 12, 24, 48, 96, 1920}[r.Intn(11)])
 		}
 	}
+	if !adversarial && r.Intn(30) == 0 { // long improper fractions over large odd denominators
+		d := uint64(1e8) + uint64(r.Int63n(1e10))
+		return fmt.Sprintf("%d/%d", d*uint64(1+r.Intn(3000))+uint64(r.Int63n(int64(d))), d)
+	}
 	return []string{"0", "1/0", "0/1", "x", "", "1/2/3", "-1", "1.5", " 1", "1/ 2", "18446744073709551616", "+1", "0x10", "0o10", "0b11", "1_0", "1e1", "+1/2", "0x1/0x2"}[r.Intn(19)]
 }
 
@@ -803,6 +807,18 @@ func genInstance(r *rand.Rand, malformed bool) rawInstance {
 			}
 			i.values = append(i.values, fmt.Sprintf("%d/%d", num, den))
 		}
+	}
+	if r.Intn(25) == 0 { // tied values whose exact sum lies on a half tick while the terms are not exact in binary
+		q := []int{3, 5, 6, 7, 9, 11, 12, 15}[r.Intn(8)]
+		m := 1 + r.Intn(4)
+		x := 1 + r.Intn(q*m-1)
+		half := []string{"1/1920", "3/1920", "1/128", "3/128", "5/384", "7/640", "1/384", "9/1920"}[r.Intn(8)]
+		i.values = []string{fmt.Sprintf("%d/%d", x, q), fmt.Sprintf("%d/%d", q*m-x, q), half}
+		if r.Intn(2) == 0 {
+			y := 1 + r.Intn(q*2-1)
+			i.values = append(i.values, fmt.Sprintf("%d/%d", y, q), fmt.Sprintf("%d/%d", q*2-y, q))
+		}
+		r.Shuffle(len(i.values), func(a, b int) { i.values[a], i.values[b] = i.values[b], i.values[a] })
 	}
 	if r.Intn(40) == 0 { // a numerator of more than 53 bits over a denominator of far fewer
 		n := (r.Uint64() | 1<<63) >> uint(r.Intn(11))
@@ -1351,6 +1367,11 @@ func streamDict() {
 		}
 		q := queries[r.Intn(len(queries))]
 		c.is = []rawInstance{{chord: &rawChord{degree: sp("1"), name: q}, values: []string{"1"}}}
+		if r.Intn(8) == 0 { // a piece that plays no chord at all: the dictionary is checked all the same
+			c.is = []rawInstance{{values: []string{"1"}}, {values: []string{"1/2"}}}
+			cases = append(cases, c)
+			continue
+		}
 		if r.Intn(2) == 0 { // several look-ups in one run, with repeats
 			for k := 0; k < 2+r.Intn(4); k++ {
 				q2 := queries[r.Intn(len(queries))]
